@@ -98,6 +98,10 @@ def make_hooks(plan):
                 # documented run-time exclusion: the before-hook skips its own element
                 if args and name in ("before_feature", "before_rule", "before_scenario"):
                     args[0].skip()
+            elif exc == "skip_feature":
+                # documented: feature.skip() may be called on a partly executed feature (fail-fast per feature)
+                if name == "after_scenario":
+                    context.feature.skip()
             elif exc == "abort":
                 context.abort(reason="hook #%d aborts the run" % k)
             elif exc:
